@@ -51,6 +51,9 @@ def _reverse_pow(y, x):
 # Small helpers
 # ============================================================
 
+# (current kind, required kind) pairs that Vector._promote can convert
+_PROMOTABLE = {(int, float), (int, complex), (float, complex), (date, datetime)}
+
 def _is_hashable(x: Any) -> bool:
 	try:
 		hash(x)
@@ -735,25 +738,30 @@ class Vector():
 
 			# Object dtype accepts any type - skip validation
 			if self._dtype is not None and self._dtype.kind is not object:
-				incompatible = None
+				# Work out the dtype that accommodates *every* new value before
+				# touching any state, so that a rejected assignment changes nothing.
+				target = self._dtype
 				for val in new_values:
+					if val is None:
+						target = target.with_nullable(True)
+						continue
 					try:
-						validate_scalar(val, self._dtype)
+						validate_scalar(val, target)
 					except TypeError:
-						incompatible = val
-						break
+						required_kind = infer_dtype([val]).kind
+						if (target.kind, required_kind) not in _PROMOTABLE:
+							raise SerifTypeError(
+								f"Cannot set {required_kind.__name__} in "
+								f"{self._dtype.kind.__name__} vector. "
+								f"Promotion not supported."
+							)
+						target = DataType(required_kind, target.nullable)
 
-				if incompatible is not None:
-					required_dtype = infer_dtype([incompatible])
-					try:
-						self._promote(required_dtype.kind)
-						underlying = self._underlying
-					except SerifTypeError:
-						raise SerifTypeError(
-							f"Cannot set {required_dtype.kind.__name__} in "
-							f"{self._dtype.kind.__name__} vector. "
-							f"Promotion not supported."
-						)
+				if target.kind is not self._dtype.kind:
+					self._promote(target.kind)
+					underlying = self._underlying
+				if target.nullable and not self._dtype.nullable:
+					self._dtype = self._dtype.with_nullable(True)
 		# =====================================================================
 		# MUTATE — copy-on-write + fingerprint updates
 		# =====================================================================
